@@ -30,9 +30,21 @@ type propScen struct {
 	MangleQuoted bool   `json:"mangleQuoted"`
 	Cache        string `json:"cache"`
 	Layout       string `json:"layout"`
+	// the "bulk" family (generator vs kept names)
+	Bulk      bool   `json:"bulk,omitempty"`
+	Pattern   string `json:"pattern,omitempty"`
+	N         int    `json:"n,omitempty"`
+	Pin       string `json:"pin,omitempty"`
+	PinWhich  string `json:"pinWhich,omitempty"`
+	PinUsed   bool   `json:"pinUsed,omitempty"`
+	Target    string `json:"target,omitempty"`
+	QuotedUse bool   `json:"quotedUse,omitempty"`
 }
 
 func (s propScen) id() string {
+	if s.Bulk {
+		return fmt.Sprintf("props-bulk/%s/n%d/pin-%s-%s-used%v/target-%s/q%v/quse%v/%s", s.Pattern, s.N, s.Pin, s.PinWhich, s.PinUsed, s.Target, s.MangleQuoted, s.QuotedUse, s.Layout)
+	}
 	return fmt.Sprintf("props/%s/%s/%s/%s/%s/q%v/%s/%s", s.Foo, s.Bar, s.Keep, s.Plain, s.PlainName, s.MangleQuoted, s.Cache, s.Layout)
 }
 
@@ -49,7 +61,15 @@ type siteRec struct {
 	Reserved bool   `json:"reserved"`
 	Key      string `json:"key"`
 }
+type litRec struct {
+	InKeys  int `json:"inKeys"`
+	InSum   int `json:"inSum"`
+	OutKeys int `json:"outKeys"`
+	OutSum  int `json:"outSum"`
+}
 type propRec struct {
+	Lit          litRec    `json:"lit"`
+	PinName      string    `json:"pinName,omitempty"`
 	ID           int       `json:"id"`
 	MangleQuoted bool      `json:"mangleQuoted"`
 	HasCache     bool      `json:"hasCache"`
@@ -57,6 +77,8 @@ type propRec struct {
 	CacheOut     []pv      `json:"cacheOut"`
 	Sites        []siteRec `json:"sites"`
 	scen         propScen
+	origJob      *job
+	generated    []string
 	outputs      map[string]string
 	inputs       map[string]string
 }
@@ -123,8 +145,250 @@ func copyCache(m map[string]interface{}) map[string]interface{} {
 	return out
 }
 
+// ---------------------------------------------------------------------------
+// the bulk family: n properties that match the pattern, one kept property S
+// whose name is one of the generator's own names (learned by a probe build)
+
+var bulkPatterns = map[string]string{"suffix": "_$", "prefix": "^_", "short": "_$|^[a-zA-Z_$]$"}
+
+func bulkName(pattern string, k int) string {
+	if pattern == "prefix" {
+		return fmt.Sprintf("_p%d", k)
+	}
+	return fmt.Sprintf("p%d_", k)
+}
+
+type bulkBuild struct {
+	outputs  map[string]string
+	entries  []string
+	cacheOut map[string]interface{}
+}
+
+func buildLayout(r *core.Run, dirName, layout string, files map[string]string, mangle, reserve string, mq api.MangleQuoted, cacheIn map[string]interface{}) (*bulkBuild, string) {
+	names := []string{"A.js", "B.js", "C.js"}
+	b := &bulkBuild{outputs: map[string]string{}}
+	if layout == "chain" {
+		cache := copyCache(cacheIn)
+		for _, n := range names {
+			res := api.Transform(files[n], api.TransformOptions{Loader: api.LoaderJS, Format: api.FormatESModule, Sourcefile: n,
+				MangleProps: mangle, ReserveProps: reserve, MangleQuoted: mq, MangleCache: copyCache(cache), LogLevel: api.LogLevelSilent})
+			if len(res.Errors) > 0 {
+				return nil, msgText(res.Errors)
+			}
+			b.outputs[n] = string(res.Code)
+			b.entries = append(b.entries, n)
+			if cache != nil {
+				cache = res.MangleCache
+			}
+		}
+		b.cacheOut = cache
+		return b, ""
+	}
+	dir := filepath.Join(r.Scratch, dirName)
+	core.WriteTree(dir, files)
+	eps := []string{filepath.Join(dir, "A.js")}
+	if layout == "split" {
+		eps = append(eps, filepath.Join(dir, "B.js"))
+	}
+	res := api.Build(api.BuildOptions{AbsWorkingDir: dir, EntryPoints: eps, Bundle: true, Write: false, Outdir: filepath.Join(dir, "out"),
+		Format: api.FormatESModule, Splitting: layout == "split", MangleProps: mangle, ReserveProps: reserve, MangleQuoted: mq,
+		MangleCache: copyCache(cacheIn), LogLevel: api.LogLevelSilent})
+	if len(res.Errors) > 0 {
+		return nil, msgText(res.Errors)
+	}
+	for _, f := range res.OutputFiles {
+		rel, _ := filepath.Rel(filepath.Join(dir, "out"), f.Path)
+		b.outputs[filepath.ToSlash(rel)] = string(f.Contents)
+	}
+	b.entries = []string{"A.js"}
+	if layout == "split" {
+		b.entries = append(b.entries, "B.js")
+	}
+	b.cacheOut = res.MangleCache
+	return b, ""
+}
+
+func buildBulk(r *core.Run, idx int, s propScen) (*propRec, *job, string) {
+	mangle := bulkPatterns[s.Pattern]
+	reMangle := regexp.MustCompile(mangle)
+	mq := api.MangleQuotedFalse
+	if s.MangleQuoted {
+		mq = api.MangleQuotedTrue
+	}
+	// render the three files for a given name of S; returns the files and the sites
+	render := func(sName string, pinQuoted bool, reReserve *regexp.Regexp) (map[string]string, []siteRec, int, int) {
+		var sites []siteRec
+		body := map[int][]string{}
+		n := 0
+		site := func(f int, form, prop string) {
+			n++
+			body[f] = append(body[f], siteCode(form, n, prop))
+			sites = append(sites, siteRec{I: n, File: f, Prop: prop, Form: specForm[form], Matches: reMangle.MatchString(prop), Reserved: reReserve.MatchString(prop)})
+		}
+		var lit []string
+		litSum := 0
+		for k := 1; k <= s.N; k++ {
+			site(1, "set", bulkName(s.Pattern, k))
+			lit = append(lit, fmt.Sprintf("%s: %d", bulkName(s.Pattern, k), k))
+			litSum += k
+		}
+		litN := s.N
+		if sName != "" {
+			litN++
+			litSum += 1000
+			if pinQuoted {
+				site(1, "litq", sName)
+				lit = append(lit, fmt.Sprintf("'%s': 1000", sName))
+			} else {
+				site(1, "set", sName)
+				lit = append(lit, fmt.Sprintf("%s: 1000", sName))
+			}
+		}
+		body[1] = append(body[1], "__O({ "+strings.Join(lit, ", ")+" });")
+		for k := 1; k <= s.N; k++ {
+			if k <= 4 || k > s.N-2 {
+				site(2, "get", bulkName(s.Pattern, k))
+			}
+		}
+		if s.QuotedUse {
+			site(2, "getq", bulkName(s.Pattern, 1))
+			site(2, "litq", bulkName(s.Pattern, 3))
+		}
+		site(3, "opt", bulkName(s.Pattern, 2))
+		if sName != "" {
+			if pinQuoted {
+				site(3, "getq", sName)
+			} else {
+				site(3, "get", sName)
+			}
+		}
+		names := map[int]string{1: "A.js", 2: "B.js", 3: "C.js"}
+		files := map[string]string{}
+		for f := 1; f <= 3; f++ {
+			var sb strings.Builder
+			if s.Layout != "chain" {
+				switch {
+				case f == 1 && s.Layout == "bundle":
+					sb.WriteString("import './B.js';\nimport './C.js';\n")
+				case f == 1 || f == 2:
+					sb.WriteString("import './C.js';\n")
+				}
+			}
+			for _, l := range body[f] {
+				sb.WriteString(l + "\n")
+			}
+			sb.WriteString("export {};\n")
+			files[names[f]] = sb.String()
+		}
+		return files, sites, litN, litSum
+	}
+	rec := &propRec{ID: idx, MangleQuoted: s.MangleQuoted, scen: s, CacheIn: []pv{}, CacheOut: []pv{}, Sites: []siteRec{}}
+	reKeep := regexp.MustCompile("^keep_")
+	// (a) the probe: the same build with a placeholder for S and an empty cache tells which
+	// names the generator hands out for a build of this size (an observation that selects
+	// the scenario; it is not used as an expectation)
+	placeholder := bulkName(s.Pattern, 0)
+	pfiles, _, _, _ := render(placeholder, false, reKeep)
+	probe, errText := buildLayout(r, fmt.Sprintf("props-%d-probe", idx), s.Layout, pfiles, mangle, "^keep_", api.MangleQuotedTrue, map[string]interface{}{})
+	if errText != "" {
+		return rec, nil, "probe: " + errText
+	}
+	var gen []string
+	for _, v := range probe.cacheOut {
+		if t, ok := v.(string); ok {
+			gen = append(gen, t)
+		}
+	}
+	sort.Slice(gen, func(i, j int) bool {
+		if len(gen[i]) != len(gen[j]) {
+			return len(gen[i]) < len(gen[j])
+		}
+		return gen[i] < gen[j]
+	})
+	rec.generated = gen
+	// (b) the kept property S: one of the generated names that fits the mechanism
+	sName := ""
+	if s.Pin != "none" {
+		var cand []string
+		for _, g := range gen {
+			m := reMangle.MatchString(g)
+			if (s.Pin == "plain") != m { // "plain": a name that does not match the pattern; otherwise one that does
+				cand = append(cand, g)
+			}
+		}
+		if len(cand) == 0 {
+			return rec, nil, "no-candidate: the generator hands out no name that fits pin=" + s.Pin
+		}
+		sName = cand[0]
+		if s.PinWhich == "last" {
+			sName = cand[len(cand)-1]
+		}
+	}
+	rec.PinName = sName
+	reserve := "^keep_"
+	if s.Pin == "reserved" {
+		reserve = "^keep_|^" + regexp.QuoteMeta(sName) + "$"
+	}
+	reReserve := regexp.MustCompile(reserve)
+	used := sName
+	if !s.PinUsed {
+		used = ""
+	}
+	files, sites, litN, litSum := render(used, s.Pin == "quoted", reReserve)
+	rec.Sites = sites
+	rec.inputs = files
+	_ = litN
+	_ = litSum
+	// (c) the cache given
+	cacheIn := map[string]interface{}{}
+	if s.Pin == "false" {
+		cacheIn[sName] = false
+	}
+	if s.Target != "none" {
+		var cand []string
+		for _, g := range gen {
+			if g != sName {
+				cand = append(cand, g)
+			}
+		}
+		if len(cand) == 0 {
+			return rec, nil, "no-candidate: no generated name left for a string target"
+		}
+		t := cand[0]
+		if s.Target == "late" {
+			t = cand[len(cand)-1]
+		} else if s.Target == "unused" {
+			t = cand[len(cand)/2]
+		}
+		p := bulkName(s.Pattern, 2)
+		if s.Target == "unused" {
+			p = bulkName(s.Pattern, 9999)
+		}
+		cacheIn[p] = t
+	}
+	rec.CacheIn = cacheToPV(cacheIn)
+	rec.HasCache = true
+	b, errText := buildLayout(r, fmt.Sprintf("props-%d", idx), s.Layout, files, mangle, reserve, mq, cacheIn)
+	if errText != "" {
+		return rec, nil, errText
+	}
+	rec.CacheOut = cacheToPV(b.cacheOut)
+	rec.outputs = b.outputs
+	entries := []string{"A.js", "B.js", "C.js"}
+	if s.Layout == "bundle" {
+		entries = []string{"A.js"}
+	} else if s.Layout == "split" {
+		entries = []string{"A.js", "B.js"}
+	}
+	rec.origJob = &job{ID: fmt.Sprintf("p%dorig", idx), Kind: "esm", Files: files, Entries: entries}
+	return rec, &job{ID: fmt.Sprintf("p%d", idx), Kind: "esm", Files: b.outputs, Entries: b.entries}, ""
+}
+
 // buildProps renders and compiles one scenario; returns the record without observed keys and the node job
 func buildProps(r *core.Run, idx int, s propScen) (*propRec, *job, string) {
+	if s.Bulk {
+		return buildBulk(r, idx, s)
+	}
 	rec := &propRec{ID: idx, MangleQuoted: s.MangleQuoted, scen: s, CacheIn: []pv{}, CacheOut: []pv{}, Sites: []siteRec{}}
 	body := map[int][]string{}
 	n := 0
@@ -250,37 +514,61 @@ func runProps(r *core.Run) {
 	// chain without a cache shares nothing between the transforms: not a scenario
 	var pick []propScen
 	want := r.Pick(400, 3000)
+	wantBulk := r.Pick(240, 2000)
 	r.Rand.Shuffle(len(scens), func(i, j int) { scens[i], scens[j] = scens[j], scens[i] })
+	nb, ns, bulkAll := 0, 0, 0
 	for _, s := range scens {
+		if s.Bulk {
+			bulkAll++
+			if nb < wantBulk {
+				nb++
+				pick = append(pick, s)
+			}
+			continue
+		}
 		if s.Layout == "chain" && s.Cache == "nil" {
 			continue
 		}
-		if len(pick) < want {
+		if ns < want {
+			ns++
 			pick = append(pick, s)
 		}
 	}
+	r.Set("prop_bulk_scenarios_enumerated", bulkAll)
 	recs := make([]*propRec, len(pick))
 	jobs := make([]*job, len(pick))
 	var mu sync.Mutex
-	rejected := 0
+	rejected, noCand := 0, 0
 	core.Parallel(len(pick), 8, func(i int) {
 		rec, j, errText := buildProps(r, i+1, pick[i])
 		mu.Lock()
 		defer mu.Unlock()
 		if errText != "" {
-			rejected++
+			if strings.HasPrefix(errText, "no-candidate") {
+				noCand++
+			} else {
+				rejected++
+				if pick[i].Bulk {
+					r.Infra("bulk mangle-props scenario %s rejected by esbuild: %s", pick[i].id(), errText)
+				}
+			}
 			return
 		}
 		recs[i], jobs[i] = rec, j
 	})
 	var js []job
-	for _, j := range jobs {
+	for i, j := range jobs {
 		if j != nil {
 			js = append(js, *j)
+			if recs[i].origJob != nil {
+				js = append(js, *recs[i].origJob)
+			}
 		}
 	}
 	results := runJobs(r, js)
 	var valid []*propRec
+	bulkBuilds := 0
+	bulkByPin := map[string]int{}
 	for i, rec := range recs {
 		if rec == nil {
 			continue
@@ -291,8 +579,7 @@ func runProps(r *core.Run) {
 			continue
 		}
 		s := rec.scen
-		key := map[string]interface{}{"kind": "mangle-props", "foo": s.Foo, "bar": s.Bar, "keep": s.Keep, "plain": s.Plain, "plainName": s.PlainName,
-			"mangleQuoted": s.MangleQuoted, "cache": s.Cache, "layout": s.Layout}
+		key := scenKey(s)
 		if out.Error != "" {
 			key["invariant"] = "output-runs"
 			r.Violation(key, fmt.Sprintf("the output of a build with mangled properties throws (%s): %s", s.id(), out.Error),
@@ -306,8 +593,37 @@ func runProps(r *core.Run) {
 				rec.Sites[k].Key = "<not executed>"
 			}
 		}
+		if rec.origJob != nil {
+			orig := results[rec.origJob.ID]
+			if orig == nil || orig.Error != "" {
+				r.Infra("the input of bulk scenario %s does not run: %+v", rec.scen.id(), orig)
+				continue
+			}
+			fmt.Sscan(orig.Sites["litKeys"], &rec.Lit.InKeys)
+			fmt.Sscan(orig.Sites["litSum"], &rec.Lit.InSum)
+			fmt.Sscan(out.Sites["litKeys"], &rec.Lit.OutKeys)
+			fmt.Sscan(out.Sites["litSum"], &rec.Lit.OutSum)
+			if rec.Lit.InKeys == 0 {
+				r.Infra("bulk scenario %s: the literal of the input was not observed", rec.scen.id())
+				continue
+			}
+			bulkBuilds++
+			pinnedReached := false
+			for _, g := range rec.generated {
+				if g == rec.PinName {
+					pinnedReached = true
+				}
+			}
+			r.Case(s.id(), pinnedReached && s.N > 50)
+			if s.Pin != "none" {
+				bulkByPin[s.Pin+"/"+s.Pattern]++
+			}
+		}
 		rec.ID = len(valid) + 1
 		valid = append(valid, rec)
+		if s.Bulk {
+			continue
+		}
 		files := map[int]bool{}
 		for _, st := range rec.Sites {
 			if st.Prop == "foo_" {
@@ -317,6 +633,9 @@ func runProps(r *core.Run) {
 		r.Case(s.id(), len(files) >= 2 || s.PlainName != "plain")
 	}
 	r.Set("prop_builds", len(valid))
+	r.Set("prop_bulk_builds", bulkBuilds)
+	r.Set("prop_bulk_no_candidate_name", noCand)
+	r.Set("prop_bulk_by_pin_and_pattern", bulkByPin)
 	r.Set("prop_builds_rejected", rejected)
 	if len(valid) == 0 {
 		return
@@ -328,7 +647,7 @@ func runProps(r *core.Run) {
 		sb.WriteByte('\n')
 	}
 	var verdicts []propVerdict
-	vres, err := tlcrun.Run(r, tlcrun.Options{Module: "RenameProps", Config: "RenameProps.cfg", Workers: 1, TimeoutSec: 900,
+	vres, err := tlcrun.Run(r, tlcrun.Options{Module: "RenameProps", Config: "RenameProps.cfg", Workers: 1, TimeoutSec: 2400,
 		Files: map[string]string{"c15props.ndjson": sb.String()},
 		OnCase: func(raw []byte) {
 			var v propVerdict
@@ -355,9 +674,11 @@ func runProps(r *core.Run) {
 		rec := valid[v.I-1]
 		s := rec.scen
 		for _, inv := range v.Failing {
-			r.Violation(map[string]interface{}{"kind": "mangle-props", "invariant": inv, "cause": propCause(rec, inv), "foo": s.Foo, "bar": s.Bar, "keep": s.Keep, "plain": s.Plain,
-				"plainName": s.PlainName, "mangleQuoted": s.MangleQuoted, "cache": s.Cache, "layout": s.Layout},
-				fmt.Sprintf("mangled properties: a real build violates %s (%s): sites %+v, cache out %+v", inv, s.id(), rec.Sites, rec.CacheOut),
+			key := scenKey(s)
+			key["invariant"] = inv
+			key["cause"] = propCause(rec, inv)
+			r.Violation(key,
+				fmt.Sprintf("mangled properties: a real build violates %s (%s): %s; kept name %q, cache in %+v, cache out %+v, literal own keys %d -> %d", inv, s.id(), collisions(rec), rec.PinName, rec.CacheIn, rec.CacheOut, rec.Lit.InKeys, rec.Lit.OutKeys),
 				map[string]interface{}{"scenario": s, "record": rec, "input": rec.inputs, "output": rec.outputs})
 		}
 	}
@@ -368,11 +689,54 @@ func runProps(r *core.Run) {
 	}
 }
 
+func scenKey(s propScen) map[string]interface{} {
+	if s.Bulk {
+		return map[string]interface{}{"kind": "mangle-props", "family": "bulk", "pattern": s.Pattern, "n": s.N, "pin": s.Pin, "pinWhich": s.PinWhich, "pinUsed": s.PinUsed,
+			"target": s.Target, "mangleQuoted": s.MangleQuoted, "quotedUse": s.QuotedUse, "layout": s.Layout}
+	}
+	return map[string]interface{}{"kind": "mangle-props", "foo": s.Foo, "bar": s.Bar, "keep": s.Keep, "plain": s.Plain, "plainName": s.PlainName,
+		"mangleQuoted": s.MangleQuoted, "cache": s.Cache, "layout": s.Layout}
+}
+
+// collisions lists the sites whose observed key differs from the property's name and the pairs of properties under one key
+func collisions(rec *propRec) string {
+	var out []string
+	byKey := map[string]map[string]bool{}
+	for _, st := range rec.Sites {
+		if byKey[st.Key] == nil {
+			byKey[st.Key] = map[string]bool{}
+		}
+		byKey[st.Key][st.Prop] = true
+	}
+	keys := make([]string, 0, len(byKey))
+	for k := range byKey {
+		keys = append(keys, k)
+	}
+	sort.Strings(keys)
+	for _, k := range keys {
+		if len(byKey[k]) > 1 {
+			var ps []string
+			for p := range byKey[k] {
+				ps = append(ps, p)
+			}
+			sort.Strings(ps)
+			out = append(out, fmt.Sprintf("key %q is used for the properties %v", k, ps))
+		}
+	}
+	if len(out) == 0 {
+		if len(rec.Sites) > 12 {
+			return fmt.Sprintf("%d sites, no two properties under one key at the sites", len(rec.Sites))
+		}
+		return fmt.Sprintf("sites %+v", rec.Sites)
+	}
+	return strings.Join(out, "; ")
+}
+
 // propCause attributes a key collision: "new-name-equals-quoted-key" when every
 // pair of sites of different properties that share a key consists of a
 // mangled site and an untouched QUOTED key (mangle-quoted off)
 func propCause(rec *propRec, inv string) string {
-	if inv != "DistinctPropsDistinctKeys" {
+	if inv != "DistinctPropsDistinctKeys" && inv != "LiteralPreserved" {
 		return "other"
 	}
 	quoted := func(f string) bool { return f == "lit-q" || f == "get-q" || f == "in-q" }
